@@ -175,7 +175,7 @@ class Interproc:
             if any(True for _ in leaves(nk)):
                 continue  # an untranslated leaf of the source namespace remains
             nk = _untag(nk)
-            if not self.keep(nk):
+            if not self.keep(nk) or not all(isinstance(v, (str, bool)) for v in vs[1]):
                 continue
             cur = d.get(nk)
             if cur is not None:
@@ -201,11 +201,22 @@ class Interproc:
         ga = GuardAnalysis(fn, self.prog, mem_kill=True, modsets=self.ms, entry_facts=entry_facts,
                            call_hook=lambda g, b, S, cx=cx: self.call_hook(cx, g, b, S), max_disj=self.max_disj)
         cx.ga = ga
-        # exits
+        # exits: keep what the caller can use – facts it passed in, facts about memory this function
+        # (transitively) writes, and facts about the return value; case splits learnt by merely *reading*
+        # other memory are dropped (always sound) so that they do not multiply contexts
+        written = self.ms.of(fn) or set()
+        entry_keys = set(k for e in entry_facts for k in e.d)
         ex = set()
         for rb in fn.return_blocks:
             for fs in ga.at(rb):
-                ex.add(fs)
+                d = {}
+                for k, vs in fs.items():
+                    if k[0] == "count":
+                        continue
+                    if k in entry_keys or any(l[0] == "local" and l[1] == 0 for l in leaves(k)) \
+                            or any(p[:len(w)] == w or w[:len(p)] == p for p in ga.key_paths(k) for w in written):
+                        d[k] = vs
+                ex.add(Facts(d))
         cx.exits = frozenset(ex)
         # panic sites reachable in this context
         for b, c in call_sites(fn):
